@@ -535,8 +535,10 @@ Proof.
     set (fb' := set_forstk (f_forstk fb) f3).
     assert (St2 : step1 P (E, (w2, f3)) = Some (p, (w2, for_push (mkFC (S i) m) fb'))).
     { eapply step1_goto; [exact HnE|]. rewrite (close_for P TW) by auto.
-      unfold step_endfor. rewrite Ef. cbn [for_pop for_match fc_meta m lm_start lm_end].
-      rewrite Nat.eqb_refl, orb_true_r. reflexivity. }
+      unfold step_endfor. rewrite Ef. cbn [for_pop].
+      assert (Hfm : for_match E (mkFC (S i) m) = true)
+        by (unfold for_match; cbn; rewrite Nat.eqb_refl; apply orb_true_r).
+      rewrite Hfm. reflexivity. }
     assert (Ib' : Inv P fb') by (eapply Inv_same; [| | |exact I3]; reflexivity).
     assert (Frb : frame p (S E) fb fb').
     { destruct (fr_if _ _ _ _ F3) as (Jb & Ei & Fi). destruct (fr_wh _ _ _ _ F3) as (Jw & Ew & Fw).
@@ -547,7 +549,7 @@ Proof.
       - cbn. rewrite Ew, S1b. reflexivity.
       - eapply Forall_impl; [|exact Fw]. unfold wh_junk. intros a. lia.
       - reflexivity.
-      - intros l Hl. cbn. rewrite (fr_end _ _ _ _ F3) by lia. cbn. apply Hend1. lia. }
+      - intros l Hl0. cbn. rewrite (fr_end _ _ _ _ F3) by lia. cbn. apply Hend1. lia. }
     assert (Hfb' : for_out p (S E) fb') by (eapply for_out_same; [|exact Hf]; reflexivity).
     destruct (Hl sp x hv b e (S i) w2 w' p Ht Hw Hp0 fb' (for_push (mkFC (S i) m) fb') Ib' Hfb')
       as (f5 & R5 & I5 & F5).
@@ -582,9 +584,9 @@ Proof.
   - assert (Hb' : block_ok (S n)) by (apply block_case; assumption).
     split; [|split; [exact Hb'|split; [apply chain_case; assumption|apply loop_case; assumption]]].
     intros s w w' p Hw Hp Ht. destruct s as [p0|sp c b els e|sp c b e|sp x hv b e].
-    + eapply cmd_case; eauto.
-    + eapply if_case; eauto.
-    + eapply while_case; eauto.
-    + eapply for_case; eauto.
+    + exact (cmd_case n p0 w w' p Hp Ht).
+    + exact (if_case n Hb Hc sp c b els e w w' p Hw Hp Ht).
+    + exact (while_case n Hs Hb sp c b e w w' p Hw Hp Ht).
+    + exact (for_case n Hl sp x hv b e w w' p Hw Hp Ht).
 Qed.
 End Sim.
